@@ -817,7 +817,7 @@ func (p *Printer) paramExp(pe *ParamExp) {
 	case len(pe.Modifiers) > 0:
 		for _, lit := range pe.Modifiers {
 			p.w.WriteByte(':')
-			p.w.WriteString(lit.Value)
+			p.writeLit(lit.Value) // a tab must not reach the tabwriter as a cell separator
 		}
 	case pe.Slice != nil:
 		p.w.WriteByte(':')
